@@ -426,6 +426,14 @@ Definition break_at_mut (k : nat) : visitor_mut (list event) :=
     number of callbacks the implementation made when Break was returned at the k-th.
     Result code: 0 agreement; 1 full trace differs from [walk]; 2 [walkB] with Break at k
     differs; 3 [walk_mut] with a non-rewriting visitor: tree or trace differs. *)
+Fixpoint events_eqb (a b : list event) : bool :=
+  match a, b with
+  | [], [] => true
+  | (p1, h1, q1) :: r1, (p2, h2, q2) :: r2 =>
+      phase_eqb p1 p2 && str_eqb h1 h2 && path_eqb q1 q2 && events_eqb r1 r2
+  | _, _ => false
+  end.
+
 Definition c16_code (E : env) (c : sval * list (phase * str * N) * list (nat * nat)) : N :=
   match c with
   | (v, tr, ks) =>
@@ -433,9 +441,9 @@ Definition c16_code (E : env) (c : sval * list (phase * str * N) * list (nat * n
     if negb (obs_eqb (observed v w) tr) then 1
     else if negb (forallb (fun kn =>
               let '(s, b) := walkB (list event) E v (break_at (fst kn)) [] in
-              Nat.eqb (length s) (snd kn) && b && obs_eqb (observed v s) (firstn (snd kn) tr)) ks) then 2
+              Nat.eqb (length s) (snd kn) && b && events_eqb s (firstn (snd kn) w)) ks) then 2
     else match walk_mut (list event) (Datatypes.S (sv_depth v)) E (break_at_mut 0) v [] with
-         | Some (v', s, b) => if sval_eqb v v' && negb b && obs_eqb (observed v s) tr then 0 else 3
+         | Some (v', s, b) => if sval_eqb v v' && negb b && events_eqb s w then 0 else 3
          | None => 3
          end
   end.
